@@ -103,6 +103,11 @@ def run(out, tier, seed):
             jobs.append({"cfg": {}, "events": [{"op": "rt", "fmt": fmt, "shape": name, "table": t}]})
         if t["vars"]:
             jobs.append({"cfg": {"seed": seed + ti}, "events": [{"op": "tsv_read", "shape": name, "table": t}]})
+        # the same table as another engine might send it: independent randomised JSON and XML writers
+        jobs.append({"cfg": {"seed": seed * 3 + ti}, "events": [{"op": "json_read", "fmt": "json", "shape": name, "table": t}]})
+        import re as _re
+        if not any(x["k"] == "lit" and _re.search("[\x00-\x08\x0b\x0c\x0e-\x1f\ufffe\uffff]", x["v"]) for r in t["rows"] for x in r.values()):     # no XML document can carry these
+            jobs.append({"cfg": {"seed": seed * 5 + ti}, "events": [{"op": "xml_read", "fmt": "xml", "shape": name, "table": t}]})
         jobs.append({"cfg": {}, "events": [{"op": "csv", "shape": name, "table": t}]})
     for fmt in ("json", "xml"):
         for v in (True, False):
